@@ -12,6 +12,13 @@ class OptimizeConstantCastVisitor(Visitor.DefaultVisitor):
             constant = value.Value
             if isinstance(ci.Type, LinearIR.FloatType):
                 constant = float(constant)
+            elif isinstance(ci.Type, LinearIR.IntegerType):
+                # Same conversion as the CAST instruction of the VM
+                import math
+
+                constant = math.floor(constant)
+                if ci.Type.Unsigned:
+                    constant = abs(constant)
             else:
                 Errors.ERROR_INTERNAL_COMPILER_ERROR.Raise(
                     f"Cannot cast constant {ci.Value} to type {ci.Type}"
